@@ -407,7 +407,8 @@ def split_uri(uri):
     else:
         try:
             scheme, netloc, path, query, fragment = parse.urlsplit(uri)
-        except UnicodeError:
+        except ValueError:
+            # UnicodeError, or e.g. "Invalid IPv6 URL" for an unbalanced "["
             raise ParsingError("Bad URI")
 
     return (
